@@ -46,7 +46,7 @@ def run(res, replay=None):
             if "K2-cluster" in T.known_class(inp):
                 continue
             inputs.append(inp)
-    wd = os.path.join(C.CACHE, "run", "c06")
+    wd = C.rundir("c06")
     os.makedirs(wd, exist_ok=True)
     cases = []
     for inp in inputs:
